@@ -16,6 +16,7 @@ import (
 	"net/url"
 	"runtime/debug"
 	"strings"
+	"time"
 
 	"golang.org/x/net/html"
 
@@ -36,7 +37,24 @@ type HTTPReq struct {
 	// FailWriteAfter > 0: the connection to the user agent breaks after that many body bytes: the Write that crosses the
 	// limit writes the part that fits and returns an error, later writes fail at once.
 	FailWriteAfter int `json:"fail_write_after,omitempty"`
+	// BodyDelayMs > 0: the body arrives late: the first Read of the body blocks that long (a slow upload).
+	BodyDelayMs int `json:"body_delay_ms,omitempty"`
 }
+
+type delayedBody struct {
+	r     io.Reader
+	delay time.Duration
+	once  bool
+}
+
+func (d *delayedBody) Read(p []byte) (int, error) {
+	if !d.once {
+		d.once = true
+		time.Sleep(d.delay)
+	}
+	return d.r.Read(p)
+}
+func (d *delayedBody) Close() error { return nil }
 
 // Opt are the knobs of one call that are not part of the serialisable request.
 type Opt struct {
@@ -111,6 +129,9 @@ func DoOpt(h http.Handler, r HTTPReq, o Opt) (rep Reply) {
 	}
 	req.Body = io.NopCloser(strings.NewReader(r.Body))
 	req.ContentLength = int64(len(r.Body))
+	if r.BodyDelayMs > 0 {
+		req.Body = &delayedBody{r: strings.NewReader(r.Body), delay: time.Duration(r.BodyDelayMs) * time.Millisecond}
+	}
 	if r.Chunked {
 		req.ContentLength = -1
 		req.TransferEncoding = []string{"chunked"}
